@@ -71,7 +71,8 @@ def run_tlc(module, cfg, metadir, workers=1, timeout=600, env_extra=None, java_o
     if env_extra:
         env.update(env_extra)
     os.makedirs(metadir, exist_ok=True)
-    cmd = ["timeout", str(timeout), "java", "-XX:+UseParallelGC", f"-Xmx{xmx}", "-cp",
+    gc = ["-XX:+UseSerialGC"] if workers == 1 else ["-XX:+UseParallelGC", f"-XX:ParallelGCThreads={max(2, min(int(workers), 8))}"]
+    cmd = ["timeout", str(timeout), "java"] + gc + ["-XX:TieredStopAtLevel=4", f"-Xmx{xmx}", "-cp",
            "/opt/veriftools/tla/tla2tools.jar:/opt/veriftools/tla/CommunityModules-deps.jar", "tlc2.TLC",
            "-workers", str(workers), "-metadir", metadir, "-noGenerateSpecTE", "-config", cfg] + (extra_args or []) + [module + ".tla"]
     r = subprocess.run(cmd, cwd=SPEC, env=env, stdout=subprocess.PIPE, stderr=subprocess.STDOUT, text=True)
